@@ -74,5 +74,49 @@ expect("Trace_Edit: untouched recorded reindex", [f for f in c17.validate([ec])[
 c = copy.deepcopy(ec); [e for e in c["events"][0]["post"]["E"] if e["tbl"] == "valve" and e["lab"] == 2][0]["b"] = 7
 expect("Trace_Edit: pipe-valve's pipe label translated like a junction", c17.validate([c])[1], "C17.relabel_mismatch")
 
+# ---- Trace_Mix (enthalpy balance with a temperature-dependent heat capacity)
+from harness import mix, multictl, stdtype, transient as TR, c13
+mc = mix.run_case({"id": "m", "x": {"streams": [[3, 60000], [2, 20000]], "q": 40000, "mode": "sequential", "rev": True}})
+expect("Trace_Mix: untouched recorded mixing scenario", mix.validate([mc])[1], None)
+c = copy.deepcopy(mc); c["obs"]["tmix"][1] += 15
+expect("Trace_Mix: mix temperature off by 15 mK", mix.validate([c])[1], "C10.mixing_not_energy_conserving")
+c = copy.deepcopy(mc); c["obs"]["tout"][1] += 20
+expect("Trace_Mix: exchanger outlet off by 20 mK", mix.validate([c])[1], "C11.duty_inconsistent")
+
+# ---- Trace_MultiCtl (multi-energy control loop)
+mcase = multictl.run_case({"id": "c", "ctrls": [{"kind": "SETS", "level": 0, "order": 0}, {"kind": "G2G", "level": 0, "order": 1},
+                                                 {"kind": "P2G", "level": 1, "order": 0}]})
+expect("Trace_MultiCtl: untouched recorded control run", multictl.validate([mcase])[1], None)
+c = copy.deepcopy(mcase); c["written"][0]["val"] = [c["written"][0]["val"][0] + 1, c["written"][0]["val"][1]]
+expect("Trace_MultiCtl: written value altered", multictl.validate([c])[1], "C20.written_value")
+c = copy.deepcopy(mcase); c["nets"][2]["coupled"] = "0000"
+expect("Trace_MultiCtl: member net's results not those of its inputs", multictl.validate([c])[1], "C20.member_net_differs_from_standalone")
+c = copy.deepcopy(mcase); c["ctrls"][0]["order"] = 2        # the setter now comes after the coupling: the stale value would be legitimate
+c["written"][1 if c["written"][0]["kind"] != "G2G" else 0]["val"] = [1, 7]
+expect("Trace_MultiCtl: stale conversion is not judged if the writer comes later", [f for f in multictl.validate([c])[1] if any(cl[1] == "G2G" for cl in f["clauses"])], None)
+
+# ---- Trace_StdType (standard-type library)
+sc = stdtype.replay({"id": "s", "hist": [{"op": "create_pipe", "name": "T1", "k": 15, "u": -1, "ok": True},
+                                           {"op": "create_pipe", "name": "T1", "k": -1, "u": -1, "ok": True}]})
+expect("Trace_StdType: untouched recorded history", stdtype.validate([sc])[1], None)
+c = copy.deepcopy(sc); c["events"][0]["post"]["lib"][0][2] = 15; c["events"][1]["post"]["lib"][0][2] = 15
+expect("Trace_StdType: override written into the library", stdtype.validate([c])[1], "STD.library_changed")
+c = copy.deepcopy(sc); c["events"][1]["post"]["pipes"][1][2] = 15
+expect("Trace_StdType: second pipe carries the first pipe's override", stdtype.validate([c])[1], "STD.row_differs_from_type")
+
+# ---- Trace_TS (transient series)
+ts, _ = TR.run_case({"id": "t", "net": "tree", "profile": ["A", "B", "A"], "steps": [1, 2, 3], "cod": False})
+expect("Trace_TS: untouched recorded transient series", c13.validate([ts])[1], None)
+c = copy.deepcopy(ts); c["steps"][1]["logged"] = "ffff"
+expect("Trace_TS: a step's hydraulic digest altered", c13.validate([c])[1], "C13.step_differs_from_standalone")
+c = copy.deepcopy(ts); c["steps"][0]["pre_th"] = "ffff"
+expect("Trace_TS: first step differs in the shorter series", c13.validate([c])[1], "C13.step_depends_on_later_steps")
+
+# ---- Trace_Edit: continuous index over all tables
+ec = edit.replay({"id": "e2", "base": 1, "hist": [{"op": "continuous_all", "tbl": "all", "start": 3}]})
+expect("Trace_Edit: untouched continuous index over all tables", c17.validate([ec])[1], None)
+c = copy.deepcopy(ec); [e for e in c["events"][0]["post"]["E"] if e["tbl"] == "pipe"][0]["rtag"] = "xx"
+expect("Trace_Edit: a result row did not follow its pipe", c17.validate([c])[1], "C17.relabel_mismatch")
+
 print("SELFTEST", "PASSED" if ok else "FAILED")
 sys.exit(0 if ok else 1)
